@@ -158,6 +158,10 @@ pub const OPS_PER_UNIT: u64 = 400;
 pub const OPS_BASE: u64 = 200_000;
 pub const BYTES_PER_UNIT: u64 = 120_000;
 pub const BYTES_BASE: u64 = 4_000_000;
+pub const LONG_OPS_PER_UNIT: u64 = 100;
+pub const LONG_OPS_BASE: u64 = 100_000;
+pub const LONG_BYTES_PER_UNIT: u64 = 40_000;
+pub const LONG_BYTES_BASE: u64 = 4_000_000;
 
 pub fn oracle<E: Engine>(_ctx: &RunCtx, spec: &HostileSpec, log: &mut CaseLog) -> Result<(), String> {
     E::reset_case();
@@ -355,6 +359,59 @@ pub fn raw_oracle<E: Engine>(_ctx: &RunCtx, spec: &RawSpec, log: &mut CaseLog) -
     Ok(())
 }
 
+/// work bound on LONG batches: a cost that grows faster than linearly in the number of members is invisible in batches of five
+pub fn long_work_oracle(_ctx: &RunCtx, spec: &crate::props::c01::LongSpec, log: &mut CaseLog) -> Result<(), String> {
+    use crate::props::c03::{build_member, verify_members, Member};
+    F::reset_case();
+    let bits = BITS[spec.bits_idx as usize % 4];
+    let pool: Vec<Member<F>> = spec
+        .pool
+        .iter()
+        .map(|pm| build_member::<F>(bits, spec.ext, pm, bits.max(16)))
+        .collect::<Result<_, _>>()?;
+    let k = spec.k as usize;
+    let mut rng = chacha(spec.order);
+    let seq: Vec<&Member<F>> = (0..k).map(|_| &pool[(rng.next_u32() as usize) % pool.len()]).collect();
+    let action = [VerifyAction::VerifyOnly, VerifyAction::RecoverAndVerify, VerifyAction::RecoverOnly][spec.mode as usize % 3];
+    let mut s_total = 0u64;
+    let mut table = 0u64;
+    for m in &seq {
+        s_total += (bits * m.m) as u64 + (m.proof.to_bytes().len() as u64) / 32;
+        table = table.max(2 * (bits * m.cap) as u64);
+    }
+    s_total += table;
+    fp::reset_ops();
+    alloc::count_start();
+    let r = verify_members::<F>(&seq, action);
+    let (bytes_req, max_req, _) = alloc::count_stop();
+    let ops = fp::ops();
+    r?.map_err(|e| format!("all-honest batch of {} rejected: {}", k, e))?;
+    // honest long batches measure at most 8.2 operations and 3.5 kB per unit (200 batches, k up to 520); the hostile-input bound
+    // above is kept loose for small inputs, this one is twelve times the measured maximum
+    let ops_bound = LONG_OPS_PER_UNIT * s_total + LONG_OPS_BASE;
+    let bytes_bound = LONG_BYTES_PER_UNIT * s_total + LONG_BYTES_BASE;
+    if std::env::var("VERIF_C16_CALIBRATE").is_ok() {
+        eprintln!("CAL-LONG ops/S={:.1} bytes/S={:.1} S={} k={} max_req={}", ops as f64 / s_total as f64, bytes_req as f64 / s_total as f64, s_total, k, max_req);
+    }
+    if ops > ops_bound {
+        return Err(format!(
+            "verification work is not proportional to the input: {} coordinate operations for a batch of {} (input size {}, bound {})",
+            ops, k, s_total, ops_bound
+        ));
+    }
+    if bytes_req > bytes_bound || max_req > bytes_bound {
+        return Err(format!(
+            "verification allocates out of proportion to the input: {} bytes requested for a batch of {} (input size {}, bound {})",
+            bytes_req, k, s_total, bytes_bound
+        ));
+    }
+    log.label("engine=F");
+    log.label(format!("long-work:k={}", if k > 256 { ">256" } else { "<=256" }));
+    log.nontrivial(&(k, bits, spec.ext, spec.order));
+    log.sample(json!({"kind": "work bound on a long batch", "k": k, "input_size": s_total, "ops": ops, "bytes_requested": bytes_req}));
+    Ok(())
+}
+
 fn hostile_sub<E: Engine>(cases: (usize, usize)) -> Sub {
     sub(
         &format!("{}/hostile-batches", E::NAME),
@@ -398,6 +455,7 @@ pub fn def() -> PropertyDef {
             ),
             // long all-honest batches with mixed aggregation sizes: a panic on a batch shape beyond the chunk size is seen here
             crate::props::c01::long_sub::<F>((120, 2000)),
+            sub("F/long-batch-work-bound", no_fixed, (200, 3000), |_: &RunCtx, _: Option<&()>| crate::props::c01::long_strategy(), long_work_oracle),
             crate::props::c01::long_sub::<R>((16, 200)),
             crate::fuzzdec::corpus_sub("decode"),
             crate::fuzzdec::corpus_sub("verify"),
